@@ -8,7 +8,7 @@
 (* a CASE line; the harness replays the cases into                         *)
 (* ValidatedVote::try_new / ValidatedCert::try_new with real BLS keys.     *)
 (*                                                                         *)
-(* One state = one case (Init enumerates, Next stutters).                  *)
+(* One state = one case (see Init / Next below).                           *)
 (***************************************************************************)
 EXTENDS Auth, Json, TLC, TLCExt
 
@@ -18,7 +18,9 @@ CONSTANTS
   OutIdx,       \* signer indices outside the epoch that are tried (>= N)
   Depth,        \* 1: single mutations of certificates; 2: also pairs
   Overlap,      \* TRUE: base certificates include signer sets present in both halves
-  VoteProduct   \* TRUE: enumerate the full product of vote fields (all multi-field alterations)
+  VoteProduct,  \* TRUE: enumerate the full product of vote fields (all multi-field alterations)
+  SampleMod,    \* pairs of alterations (d = 2) are all CHECKED; they are PRINTED for replay when
+  SampleRes     \* fingerprint % SampleMod = SampleRes (SampleMod = 1: all of them)
 
 VARIABLE cs
 vars == <<cs>>
@@ -63,17 +65,15 @@ VoteMuts(b) ==
 
 VoteBases == {MakeVote(k, BaseSlot, BaseHash, v) : k \in VoteKinds, v \in Vals}
 
-VoteCases ==
-  UNION {{[t |-> "vote", label |-> x.label, cls |-> x.cls, base |-> b, msg |-> x.msg]
-           : x \in VoteMuts(b)} : b \in VoteBases}
+VoteBaseCases ==
+  {[t |-> "vote", label |-> "id", cls |-> "same", d |-> 0, msg |-> b] : b \in VoteBases}
 
 \* every combination of claimed (kind, slot, hash, signer) with every signature of the universe
 VoteProductCases ==
   IF ~VoteProduct THEN {}
   ELSE LET claims == {Payload(k, s, h) : k \in VoteKinds, s \in Slots, h \in Hashes}
            sigs == {Sig(j, q) : j \in Vals \cup {Foreign}, q \in Payloads}
-       IN {[t |-> "vote", label |-> "product", cls |-> "any",
-            base |-> MakeVote(c.k, c.s, c.h, 0),
+       IN {[t |-> "vote", label |-> "product", cls |-> "any", d |-> 2,
             msg |-> [k |-> c.k, s |-> c.s, h |-> c.h, v |-> v, sig |-> sg]]
             : c \in claims, v \in Vals \cup OutIdx, sg \in sigs}
 
@@ -90,7 +90,7 @@ LenChoices == {L \in {N - 1, N + 1, N + 64} : L >= 0}
 \* a half without its signer i (honest re-aggregation); an emptied half disappears where the
 \* wire format allows it
 WithoutSigner(c, X, hf, p, i) ==
-  LET S == hf.mask \ {i} IN
+  LET S == (hf.mask \ {i}) \cap Vals IN
   IF S = {} /\ ~TwoHalves(c.k) THEN EmptyHalf ELSE MakeHalf(S, p)
 
 HalfMuts(c, X) ==
@@ -107,29 +107,29 @@ HalfMuts(c, X) ==
     \cup {M("maskDel", "break", SetHalf(c, X, [hf EXCEPT !.mask = @ \ {i}])) : i \in hf.mask}
     \* aggregate altered, bitmask untouched
     \cup {M("bagAdd", "break", SetHalf(c, X, [hf EXCEPT !.bag = @ \cup {Sig(i, p)}])) : i \in Vals \ hf.mask}
-    \cup {M("bagDel", "break", SetHalf(c, X, [hf EXCEPT !.bag = @ \ {Sig(i, p)}])) : i \in hf.mask}
-    \cup {M("bagDup", "break", SetHalf(c, X, [hf EXCEPT !.dup = @ \cup {Sig(i, p)}])) : i \in hf.mask}
+    \cup {M("bagDel", "break", SetHalf(c, X, [hf EXCEPT !.bag = @ \ {Sig(i, p)}, !.dup = @ \ {Sig(i, p)}])) : i \in hf.mask}
+    \cup {M("bagDup", "break", SetHalf(c, X, [hf EXCEPT !.dup = @ \cup {sg}])) : sg \in hf.bag \ hf.dup}
     \cup {M("bagForeign", "break", SetHalf(c, X, [hf EXCEPT !.bag = @ \cup {Sig(Foreign, p)}]))}
     \cup {M("sigBytes", "break", SetHalf(c, X, [hf EXCEPT !.bag = @ \cup {Sig(Garbled, p)}]))}
     \* one signer's signature replaced by the same signer's signature over another kind / slot / hash
     \cup UNION {{M("sigPayload", "break",
-                   SetHalf(c, X, [hf EXCEPT !.bag = (@ \ {Sig(i, p)}) \cup {Sig(i, q)}]))
-                   : q \in NearPayloads(p)} : i \in hf.mask}
+                   SetHalf(c, X, [hf EXCEPT !.bag = (@ \ {Sig(i, p)}) \cup {Sig(i, q)}, !.dup = @ \ {Sig(i, p)}]))
+                   : q \in NearPayloads(p)} : i \in hf.mask \cap Vals}
     \* the whole aggregate taken from votes of another kind / slot / hash
-    \cup {M("aggPayload", "break", SetHalf(c, X, [hf EXCEPT !.bag = {Sig(i, q) : i \in hf.mask}]))
+    \cup {M("aggPayload", "break", SetHalf(c, X, [hf EXCEPT !.bag = {Sig(i, q) : i \in hf.mask \cap Vals}, !.dup = {}]))
             : q \in NearPayloads(p)}
     \* one signer's signature replaced by somebody else's (a validator not marked, or a foreign key)
     \cup UNION {{M("sigBy", "break",
-                   SetHalf(c, X, [hf EXCEPT !.bag = (@ \ {Sig(i, p)}) \cup {Sig(j, p)}]))
-                   : j \in (Vals \ hf.mask) \cup {Foreign}} : i \in hf.mask}
+                   SetHalf(c, X, [hf EXCEPT !.bag = (@ \ {Sig(i, p)}) \cup {Sig(j, p)}, !.dup = @ \ {Sig(i, p)}]))
+                   : j \in (Vals \ hf.mask) \cup {Foreign}} : i \in hf.mask \cap Vals}
     \* bitmask length differs from the validator count
     \cup {M("len", "break", SetHalf(c, X, [hf EXCEPT !.len = L, !.mask = @ \cap (0..(L - 1))])) : L \in LenChoices}
     \cup {M("lenBit", "break", SetHalf(c, X, [hf EXCEPT !.len = N + 1, !.mask = @ \cup {N}]))}
     \* honest re-aggregations with another signer set (signer sets +-1 around the thresholds;
     \* a validator may end up in both halves)
-    \cup {M("addSigner", "resign", SetHalf(c, X, MakeHalf(hf.mask \cup {i}, p))) : i \in Vals \ hf.mask}
+    \cup {M("addSigner", "resign", SetHalf(c, X, MakeHalf((hf.mask \cap Vals) \cup {i}, p))) : i \in Vals \ hf.mask}
     \cup {M("delSigner", "resign", SetHalf(c, X, WithoutSigner(c, X, hf, p, i))) : i \in hf.mask}
-    \cup UNION {{M("replSigner", "resign", SetHalf(c, X, MakeHalf((hf.mask \ {i}) \cup {j}, p)))
+    \cup UNION {{M("replSigner", "resign", SetHalf(c, X, MakeHalf(((hf.mask \ {i}) \cap Vals) \cup {j}, p)))
                    : j \in Vals \ hf.mask} : i \in hf.mask}
     \cup (IF TwoHalves(c.k) THEN {M("dropHalf", "resign", SetHalf(c, X, NoHalf))} ELSE {})
     \cup {M("emptyHalf", "break", SetHalf(c, X, EmptyHalf))}
@@ -138,10 +138,10 @@ HalfMuts(c, X) ==
           ELSE {M("moveSig", "break",
                   LET src == WithoutSigner(c, X, hf, p, i)
                       dst == IF oth.p
-                             THEN [oth EXCEPT !.mask = @ \cup {i}, !.bag = @ \cup {Sig(i, p)},
+                             THEN [oth EXCEPT !.mask = (@ \cup {i}) \cap (0..(oth.len - 1)), !.bag = @ \cup {Sig(i, p)},
                                               !.dup = @ \cup (oth.bag \cap {Sig(i, p)})]
                              ELSE [p |-> TRUE, len |-> N, mask |-> {i}, bag |-> {Sig(i, p)}, dup |-> {}]
-                  IN SetHalf(SetHalf(c, X, src), OtherName(X), dst)) : i \in hf.mask})
+                  IN SetHalf(SetHalf(c, X, src), OtherName(X), dst)) : i \in hf.mask \cap Vals})
 
 HashChoicesC(h, k2) ==
   IF CertHasHash(k2) THEN (IF h # NoHash THEN {h} ELSE {BaseHash}) ELSE {NoHash}
@@ -185,34 +185,33 @@ SignerSplits(k) ==
 
 HonestCases ==
   UNION {{[t |-> "cert", label |-> "honest",
-           cls |-> IF Backed(k, ab[1], ab[2]) THEN "same" ELSE "below",
-           base |-> MakeCert(k, BaseSlot, BaseHash, ab[1], ab[2]),
+           cls |-> IF Backed(k, ab[1], ab[2]) THEN "same" ELSE "below", d |-> 0,
            msg |-> MakeCert(k, BaseSlot, BaseHash, ab[1], ab[2])] : ab \in SignerSplits(k)}
           : k \in CertKinds}
 
-CertBases == {x.msg : x \in {y \in HonestCases : y.cls = "same"}}
-
-CertCases1 ==
-  UNION {{[t |-> "cert", label |-> x.label, cls |-> x.cls, base |-> b, msg |-> x.msg]
-           : x \in CertMuts(b)} : b \in CertBases}
-
-\* pairs of alterations (multi-field); the label and base are dropped so that equal results coincide
-CertCases2 ==
-  IF Depth < 2 THEN {}
-  ELSE LET first == UNION {{x.msg : x \in CertMuts(b)} : b \in CertBases}
-           second == UNION {{y.msg : y \in CertMuts(m)} : m \in first}
-       IN {[t |-> "cert", label |-> "pair", cls |-> "any", base |-> StripStake(m), msg |-> m]
-            : m \in second}
-
 ---------------------------------------------------------------------------
-Init ==
-  \/ cs \in VoteCases
-  \/ cs \in VoteProductCases
-  \/ cs \in HonestCases
-  \/ cs \in CertCases1
-  \/ cs \in CertCases2
+(* One state = one case.  root -> honest messages (d = 0) -> single alterations (d = 1)       *)
+(* -> pairs of alterations (d = 2, when Depth = 2; label and class are dropped so that equal  *)
+(* results coincide).                                                                        *)
+Root == [t |-> "root", label |-> "root", cls |-> "root", d |-> 0, msg |-> 0]
 
-Next == UNCHANGED cs
+Init == cs = Root
+
+Next ==
+  \/ /\ cs.t = "root"
+     /\ \/ cs' \in VoteBaseCases
+        \/ cs' \in VoteProductCases
+        \/ cs' \in HonestCases
+  \/ /\ cs.t = "vote" /\ cs.label = "id"
+     /\ \E x \in VoteMuts(cs.msg) :
+          /\ x.label # "id"
+          /\ cs' = [t |-> "vote", label |-> x.label, cls |-> x.cls, d |-> 1, msg |-> x.msg]
+  \/ /\ cs.t = "cert" /\ cs.label = "honest" /\ cs.cls = "same"
+     /\ \E x \in CertMuts(cs.msg) :
+          cs' = [t |-> "cert", label |-> x.label, cls |-> x.cls, d |-> 1, msg |-> x.msg]
+  \/ /\ Depth >= 2 /\ cs.t = "cert" /\ cs.d = 1
+     /\ \E x \in CertMuts(cs.msg) :
+          cs' = [t |-> "cert", label |-> "pair", cls |-> "any", d |-> 2, msg |-> x.msg]
 
 Admit(c) == IF c.t = "vote" THEN AdmitVote(c.msg) ELSE AdmitCert(c.msg)
 
@@ -230,14 +229,20 @@ Info(c) ==
         mid |-> /\ Met(Quorum, StakeOf(CertSigners(c.msg)))
                 /\ ~Met(Strong, StakeOf(CertSigners(c.msg)))]
 
+Printed ==
+  \/ cs.d < 2 \/ cs.t = "vote" \/ SampleMod = 1
+  \/ (TLCFP(cs.msg) % SampleMod) = SampleRes
+
 Emit ==
+  (cs.t # "root" /\ Printed) =>
   PrintT(<<"CASE", ToJson([t |-> cs.t, label |-> cs.label, cls |-> cs.cls, msg |-> cs.msg,
                            admit |-> Admit(cs), info |-> Info(cs)])>>)
 
 ---------------------------------------------------------------------------
 (* invariants: the property on the specification *)
 WellFormed ==
-  IF cs.t = "vote" THEN WellFormedVote(cs.msg) ELSE WellFormedCert(cs.msg)
+  cs.t # "root" =>
+    (IF cs.t = "vote" THEN WellFormedVote(cs.msg) ELSE WellFormedCert(cs.msg))
 
 \* the honest message is admitted
 ValidAccepted == cs.cls = "same" => Admit(cs)
@@ -258,7 +263,8 @@ DeclaredStakeIrrelevant ==
 \* verifier / constructor duality: admitted = exactly what honest signers can have produced
 \* for exactly these fields, with enough distinct stake
 AdmittedIffHonest ==
-  Admit(cs) <=> (IF cs.t = "vote" THEN HonestVote(cs.msg) ELSE HonestCert(cs.msg))
+  cs.t # "root" =>
+    (Admit(cs) <=> (IF cs.t = "vote" THEN HonestVote(cs.msg) ELSE HonestCert(cs.msg)))
 
 \* a notarization certificate between 60% and 80% cannot be passed off as a fast-finalization
 NoUpgradeBelowStrong ==
